@@ -1,7 +1,10 @@
 /-
   C16 — modified UTF-7 is lossless and safe.  Property theorems only.
+
+  not yet proved: decode_scalar, rejects_*, decode_eq_spec, decTransform_oneshot, transform_chunking
 -/
 import GoImap.Lemmas.Utf7
+import GoImap.Lemmas.Utf7Round
 import GoImap.Spec.Utf7
 namespace GoImap.C16
 open GoImap.Utf7 GoImap.Utf7Spec GoImap.Utf7Lemmas
@@ -11,5 +14,25 @@ theorem b64_roundtrip (bs : BytesN) (h : ∀ b ∈ bs, b < 256) : b64dec (b64enc
   b64_rt bs h
 
 example : b64dec (b64enc [0, 233, 216, 61]) = some [0, 233, 216, 61] := by decide
+
+/-- `Scalar` is the Prop version of the spec's `isScalar` -/
+theorem scalar_iff_isScalar (c : Nat) : Scalar c ↔ isScalar c = true := by
+  simp [Scalar, isScalar]
+
+/-- the main round trip: every list of Unicode scalar values survives encode-then-decode -/
+theorem decode_encode (s : List Nat) (h : ∀ c ∈ s, Scalar c) : decode (encode s) = some s := by
+  have := dec_enc s [] (by simp) h
+  simpa [decode, encode] using this
+
+-- "a&b", U+00E9, U+1F600 (astral), NUL, U+FFFF
+example : decode (encode [97, 38, 98, 233, 128512, 0, 65535, 45]) = some [97, 38, 98, 233, 128512, 0, 65535, 45] :=
+  decode_encode _ (by decide)
+
+/-- the encoder emits printable US-ASCII only -/
+theorem encode_printable (s : List Nat) (h : ∀ c ∈ s, Scalar c) : ∀ b ∈ encode s, printable b = true :=
+  enc_printable s [] (by simp) h
+
+example : ∀ b ∈ encode [97, 233, 128512, 10], printable b = true :=
+  encode_printable _ (by decide)
 
 end GoImap.C16
